@@ -201,8 +201,12 @@ class Elf(BinFormat):
     def getfileoffset(self, target):
         "converts given target virtual address back to offset in file"
         s, offset, base = self.getinfo(target)
-        if s != None:
-            result = s.p_offset + offset
+        if s is not None:
+            # getinfo returns a section header when the file has sections:
+            if isinstance(s, Shdr):
+                result = s.sh_offset + offset
+            else:
+                result = s.p_offset + offset
         else:
             result = None
         return result
@@ -234,6 +238,11 @@ class Elf(BinFormat):
             self.__file.seek(off)
             base = addr
             bytes_ = self.__file.read(size)
+            # only p_filesz bytes are file-backed: the rest of the segment (bss),
+            # up to the page that ends p_memsz, reads as zero:
+            nfile = S.p_filesz + ELF_PAGEOFFSET(S.p_vaddr)
+            total = ELF_PAGEALIGN(S.p_memsz + ELF_PAGEOFFSET(S.p_vaddr))
+            bytes_ = bytes_[:nfile].ljust(total, b"\x00")
             return {base: bytes_}
         else:
             logger.error("segment not a PT_LOAD [%08x/%0d]" % (S.p_vaddr, S.p_align))
